@@ -121,11 +121,12 @@ PROPS = {
         "assumptions": ["symbol tick counts passed to the assembler are non-decreasing (they are a u64 counter)", "FE: non-SAME audio does not produce two bursts that agree (sampled)"],
     },
     "C01": {
-        "thm": ["SameVerif.Thm.C01", "SameVerif.Thm.Chain", "SameVerif.Thm.C01r", "SameVerif.Thm.C01s", "SameVerif.Thm.ChainR", "SameVerif.Thm.C01t", "SameVerif.Thm.ChainT"],
+        "thm": ["SameVerif.Thm.C01", "SameVerif.Thm.Chain", "SameVerif.Thm.C01r", "SameVerif.Thm.C01s", "SameVerif.Thm.ChainR", "SameVerif.Thm.C01t", "SameVerif.Thm.ChainT", "SameVerif.Thm.TransportFull", "SameVerif.Thm.ChainFull"],
+        "thm_thorough": ["SameVerif.Thm.ChainFullDemo"],
         "suites": ["sigc01"],
         "spec_filter": r"^spec\.sig (c01|fe) ",
         "technique": "Lean 4 theorems about the discrete chain (sync-word ambiguity, warm-up; digital chain theorem under front-end assumptions) + in-situ correspondence of the link and transport models on tapped real runs + sampled signal-level decoding over the property's line-condition domain",
-        "level_text": "PARTIAL by nature: no theorem is about f32 DSP. Proved in Lean: the sync word is four preamble bytes, every misaligned 32-bit window over the preamble is 8 or 24 bit errors away (never within a budget <= 7), warm-up behaviour; one observed burst is delivered exactly once as payload ++ tail (burst_delivered); and the DIGITAL CHAIN composed end to end (Thm/Chain transmission_decoded): for every canonical header H, if the front end delivers what Spec.BurstObserved says for three bursts of H (acquisition within 90 preamble bits, correct hard decisions and equalizer bytes from there, release after the carrier stops) followed by silence for the hold time, with the three segments inside the history window, the voted link-layer tails free of '-' (F7's condition) and the sample counter within one forced-EOM timeout, then link model -> framer -> assembler -> receiver glue emit EXACTLY ONE message event, a StartOfMessage with text exactly H, offset of '+', zero parity count, voting count 0 or |H|; instantiated on a concrete 3-burst stream (demo_decoded). The front-end ASSUMPTIONS were measured against the real DSP and REFINED: the first formalisation (Spec.BurstObserved: open threshold rises exactly when the correlator window is right, and is down in the whole lead and tail) is met by 0 % of 957 real tapped bursts, so Thm/C01r, C01s, ChainR re-prove everything under Spec.StreamObserved — per burst: bits, close threshold and (31 ticks later) open threshold right from an acquisition index acq <= 89, equalizer bytes right, release after the carrier stops; globally: outside the synchronised stretches NO tick has both the open threshold met and a correlator window within maxErrors of the sync word (C01s.stream_bursts, ChainR.stream_decoded, from the INITIAL states). StreamObserved is decidable and its `decide` IS the check the driver runs on every sampled run's taps (C01s.checked_stream_bursts: check = true => the link model delivers exactly the transmitted bursts): per-run certificates, counted in the evidence (suites.sigc01.assumption_checks; quick tier: 779 of 960 bursts, 59 of 160 whole transmissions). Thm/C01t and ChainT generalise once more (Spec.StreamObserved2): per burst a `sync` tick at which the adjusting hit happens, the lead-in run through an abstract squelch automaton (Spec/PreSync preRun, proved to be followed by the link model: preRun_sim) that allows early hits on a partially filled window, hits at a neighbouring bit phase followed by a re-synchronisation, hits dropped at once, and a close-threshold flicker after release; also decidable and decided per run (fe2_all): about 148 of 160 whole transmissions of the quick tier are certified by C01t.checked_stream_bursts2 / ChainT.stream_decoded2; the rest (lead-in under 32 ticks, no alignment) are covered by correspondence and oracle only. C03/C06/C07 supply the combiner, parser and framer theorems the chain rests on. Tie: for every sampled transmission the real receiver's tapped observation streams are replayed on the Lean link model and transport/receiver model, which must reproduce the real link states and the real event trace, timestamps included. Sampled: complete transmissions over rates 8..96 kHz (standard and arbitrary), amplitude, DC, phase, sub-sample start, +-1 % baud, pause 1 s +-5 %, noise to 20 dB SNR, lead-in, voice gap; the oracle demands exactly [StartOfMessage H, EndOfMessage].",
+        "level_text": "PARTIAL by nature: no theorem is about f32 DSP. Proved in Lean: the sync word is four preamble bytes, every misaligned 32-bit window over the preamble is 8 or 24 bit errors away (never within a budget <= 7), warm-up behaviour; one observed burst is delivered exactly once as payload ++ tail (burst_delivered); and the DIGITAL CHAIN composed end to end (Thm/Chain transmission_decoded): for every canonical header H, if the front end delivers what Spec.BurstObserved says for three bursts of H (acquisition within 90 preamble bits, correct hard decisions and equalizer bytes from there, release after the carrier stops) followed by silence for the hold time, with the three segments inside the history window, the voted link-layer tails free of '-' (F7's condition) and the sample counter within one forced-EOM timeout, then link model -> framer -> assembler -> receiver glue emit EXACTLY ONE message event, a StartOfMessage with text exactly H, offset of '+', zero parity count, voting count 0 or |H|; instantiated on a concrete 3-burst stream (demo_decoded). The front-end ASSUMPTIONS were measured against the real DSP and REFINED: the first formalisation (Spec.BurstObserved: open threshold rises exactly when the correlator window is right, and is down in the whole lead and tail) is met by 0 % of 957 real tapped bursts, so Thm/C01r, C01s, ChainR re-prove everything under Spec.StreamObserved — per burst: bits, close threshold and (31 ticks later) open threshold right from an acquisition index acq <= 89, equalizer bytes right, release after the carrier stops; globally: outside the synchronised stretches NO tick has both the open threshold met and a correlator window within maxErrors of the sync word (C01s.stream_bursts, ChainR.stream_decoded, from the INITIAL states). StreamObserved is decidable and its `decide` IS the check the driver runs on every sampled run's taps (C01s.checked_stream_bursts: check = true => the link model delivers exactly the transmitted bursts): per-run certificates, counted in the evidence (suites.sigc01.assumption_checks; quick tier: 779 of 960 bursts, 59 of 160 whole transmissions). Thm/C01t and ChainT generalise once more (Spec.StreamObserved2): per burst a `sync` tick at which the adjusting hit happens, the lead-in run through an abstract squelch automaton (Spec/PreSync preRun, proved to be followed by the link model: preRun_sim) that allows early hits on a partially filled window, hits at a neighbouring bit phase followed by a re-synchronisation, hits dropped at once, and a close-threshold flicker after release; also decidable and decided per run (fe2_all): about 148 of 160 whole transmissions of the quick tier are certified by C01t.checked_stream_bursts2 / ChainT.stream_decoded2; the rest (lead-in under 32 ticks, no alignment) are covered by correspondence and oracle only. The WHOLE transmission is composed too (Thm/TransportFull full_transmission: three header bursts, a release poll, three trailer bursts with any polls => outputs exactly [StartOfMessage H, EndOfMessage], the EndOfMessage at the first trailer burst if the header bursts have expired and at the second otherwise; Thm/ChainFull stream_full2: six observed bursts on one tick stream from the initial states, a hit-free hold between the groups => the message events are exactly [StartOfMessage with text H, EndOfMessage], in that order; instantiated on a 3252-tick stream in ChainFullDemo, thorough tier), with kernel-checked witnesses of what happens when a hypothesis is dropped (no release poll: F4; a third burst after the record expired: F5; a long trailer tail: second StartOfMessage). C03/C06/C07 supply the combiner, parser and framer theorems the chain rests on. Tie: for every sampled transmission the real receiver's tapped observation streams are replayed on the Lean link model and transport/receiver model, which must reproduce the real link states and the real event trace, timestamps included. Sampled: complete transmissions over rates 8..96 kHz (standard and arbitrary), amplitude, DC, phase, sub-sample start, +-1 % baud, pause 1 s +-5 %, noise to 20 dB SNR, lead-in, voice gap; the oracle demands exactly [StartOfMessage H, EndOfMessage].",
         "level_note": "The DSP above the observation boundary (DC block, AGC, matched filters, timing loop, power tracker, equalizer arithmetic) is NOT modelled or proved; it enters as the tapped observation stream. Amplitude domain is [300, 30000] (see DESIGN.md): with normalised +-1 audio and wide gain limits the additive AGC converges too slowly, which the crate documents.",
         "rule": SIG_RULE,
         "exhaustive": False,
